@@ -221,4 +221,18 @@ def Job.aloneResult (jobs : List Job) (t : Nat) (jb : Job) : List HVal :=
   let σ := ((jb.prog true t).alone (initStore jobs) []).1
   (List.range jb.seps.length).map fun k => σ (.dest t k)
 
+/-! ### witness workload (used by Props/C09.lean) -/
+
+/-- two threads, separators `;` and `,`, both given the word `a,b;c` -/
+def defectJobs : List Job := [⟨[';'], [(0, "a,b;c".toList)]⟩, ⟨[','], [(0, "a,b;c".toList)]⟩]
+
+/-- their programs as the code was before the fix (separator through the static buffer) -/
+def defectProgs : Fin 2 → Prog HCell HVal := fun i => (defectJobs[i]).prog false i.val
+
+/-- write buffer (0), write buffer (1), tokenise (0), tokenise (1) -/
+def defectSched : List (Fin 2) := [0, 1, 0, 1]
+
+/-- the repaired programs for the same two jobs -/
+def fixedProgs : Fin 2 → Prog HCell HVal := fun i => (defectJobs[i]).prog true i.val
+
 end CelmaVerif.Interleave
